@@ -135,7 +135,10 @@ protected:
 	{
 		if (!jsonValue.IsString())
 		{
-			HandleMismatchedTypesPolicy(serializationOptions.mismatchedTypesPolicy);
+			// Null value from JSON is excluded from MismatchedTypesPolicy processing
+			if (!jsonValue.IsNull()) {
+				HandleMismatchedTypesPolicy(serializationOptions.mismatchedTypesPolicy);
+			}
 			return false;
 		}
 
